@@ -7,7 +7,7 @@ seed, sid, ev = sys.argv[1], sys.argv[2], sys.argv[3]
 d = os.path.join(VERIF, "seeded", sid)
 os.makedirs(d, exist_ok=True)
 for f in os.listdir(seed):
-    if f.endswith((".diff", ".cc", ".sh", ".h")):
+    if f.endswith((".diff", ".cc", ".sh", ".h")) and os.path.abspath(seed) != os.path.abspath(d):
         shutil.copy(os.path.join(seed, f), os.path.join(d, f))
 meta = {}
 try:
@@ -21,7 +21,7 @@ out = {
     "summary": meta.get("summary"),
     "needs_to_manifest": meta.get("needs_to_manifest"),
     "files_changed": meta.get("files_changed"),
-    "seeder_verification": meta.get("how_verified"),
+    "seeder_verification": meta.get("how_verified") or meta.get("seeder_verification"),
     "confirmed_here": {
         "patch_applies": e.get("patch_applies"), "tests": e.get("tests"), "tests_pass": e.get("tests_pass"),
         "demo_on_clean_tree": e.get("demo_clean"), "demo_on_patched_tree": e.get("demo_patched"),
